@@ -100,7 +100,8 @@ func (c *chain) finalize(txs [][]byte) *abci.ResponseFinalizeBlock {
 // deployRuntime plants a contract with the given runtime code (fixture time, through keepers).
 func (c *chain) deployRuntime(name string, runtime []byte) common.Address {
 	ctx := c.s.CurrentContext
-	addr := common.BytesToAddress(sha256.New().Sum([]byte("verif-contract-" + name))[:20])
+	h := sha256.Sum256([]byte("verif-contract-" + name))
+	addr := common.BytesToAddress(h[:20])
 	ak := c.s.ChainApp.AccountKeeper()
 	acc := ak.NewAccountWithAddress(ctx, addr.Bytes())
 	_ = acc.SetSequence(1)
